@@ -1,4 +1,10 @@
 import GeoVerif.Model.GeodInverse
+import GeoVerif.Model.GeodInvSeries
+import GeoVerif.Proofs.GeodInvSeries
+import GeoVerif.Spec.RealInst
+import Mathlib.Tactic.LinearCombination
+import Mathlib.Tactic.Positivity
+import Mathlib.Tactic.NormNum
 /-!
 # C02 — inverse problem: the symmetry bookkeeping holds for every core solver (core Lean only)
 -/
@@ -79,5 +85,66 @@ theorem canon_signs (lat1 lon1 lat2 lon2 : F64) :
 example : ((canon (F64.ofInt 10) (F64.ofInt 20) (F64.ofInt 30) (F64.ofInt 5)).lonsign,
            (canon (F64.ofInt 10) (F64.ofInt 20) (F64.ofInt 30) (F64.ofInt 5)).swapp,
            (canon (F64.ofInt 10) (F64.ofInt 20) (F64.ofInt 30) (F64.ofInt 5)).latsign) = (1, -1, -1) := by decide +kernel
+
+
+/-! ### `Geodesic::Astroid` (starting guess of the inverse solver in the antipodal region) -/
+
+section Astroid
+open GeoVerif.GeodInvSeries GeoVerif.Vermeille GeoVerif.Proofs.GeodInvSeries
+
+/-- **`Astroid` returns the positive root** of `k⁴ + 2k³ − (x² + y² − 1)k² − 2y²k − y² = 0` (Cardano branch: `x, y ≠ 0`
+    and a non-negative discriminant, i.e. on or outside the astroid `x^{2/3} + y^{2/3} = 1`) -/
+theorem astroid_root (x y : ℝ) (hx : x ≠ 0) (hy : y ≠ 0)
+    (hdisc : 0 ≤ x ^ 2 * y ^ 2 / 4 * (x ^ 2 * y ^ 2 / 4 + 2 * ((x ^ 2 + y ^ 2 - 1) / 6) ^ 3)) :
+    let k := astroid x y
+    0 < k ∧ k ^ 4 + 2 * k ^ 3 - (x ^ 2 + y ^ 2 - 1) * k ^ 2 - 2 * y ^ 2 * k - y ^ 2 = 0 := by
+  intro k
+  have hp : 0 < x ^ 2 := by positivity
+  have hq : 0 < y ^ 2 := by positivity
+  set p := x ^ 2 with hpd
+  set q := y ^ 2 with hqd
+  set r := (p + q - 1) / 6 with hr
+  set S := p * q / 4 with hSd
+  have hS : 0 < S := by positivity
+  have hcub := astroidU_spec S r hS hdisc
+  set u := astroidU S r with hu
+  have hv2 : 0 < u ^ 2 + q := by positivity
+  set v := Real.sqrt (u ^ 2 + q) with hv
+  have hvpos : 0 < v := Real.sqrt_pos.mpr hv2
+  have hvsq : v ^ 2 = u ^ 2 + q := Real.sq_sqrt hv2.le
+  have hvu : 0 < v - u := by
+    have : |u| < v := by rw [hv, Real.lt_sqrt (abs_nonneg u), sq_abs]; linarith
+    have := le_abs_self u; linarith
+  have huvpos : 0 < u + v := by
+    have : |u| < v := by rw [hv, Real.lt_sqrt (abs_nonneg u), sq_abs]; linarith
+    have := neg_abs_le u; linarith
+  set uv := (if u < 0 then q / (v - u) else u + v) with huv
+  have huv_eq : uv = u + v := by
+    rw [huv]; split_ifs with h
+    · rw [div_eq_iff hvu.ne']; linear_combination -hvsq
+    · rfl
+  set w := (uv - q) / (2 * v) with hw
+  have hk : k = uv / (Real.sqrt (uv + w ^ 2) + w) := by
+    show astroid x y = _
+    unfold astroid
+    simp only [sq_real, sqrt_real, leb_real, ltb_real, eqb_real, lit_real]
+    push_cast
+    have hq0 : decide (y ^ 2 = (0:ℝ)) = false := by simpa using hy
+    simp only [hq0, Bool.false_and, Bool.not_false, if_true, decide_eq_true_eq]
+    rfl
+  have hkk := astroid_k uv w (by rw [huv_eq]; exact huvpos)
+  rw [← hk] at hkk
+  obtain ⟨hk3, hkpos⟩ := hkk
+  refine ⟨hkpos, ?_⟩
+  have h4 : 2 * v * w = 1 * (u + v - q) := by rw [hw, ← huv_eq]; field_simp
+  have hq4 := vermeille_quartic p q 1 u v w k (by rw [hSd, hr] at hcub; linear_combination hcub) (by linear_combination hvsq) h4
+    (by rw [← huv_eq]; exact hk3) hvpos.ne'
+  linear_combination hq4
+
+/-- non-vacuity: `(x, y) = (−1, 1)` lies outside the astroid -/
+example : ((-1 : ℝ) ≠ 0) ∧ ((1 : ℝ) ≠ 0) ∧
+    (0 : ℝ) ≤ (-1) ^ 2 * 1 ^ 2 / 4 * ((-1) ^ 2 * 1 ^ 2 / 4 + 2 * (((-1) ^ 2 + 1 ^ 2 - 1) / 6) ^ 3) := by norm_num
+
+end Astroid
 
 end GeoVerif.Props.C02
